@@ -2221,7 +2221,9 @@ fn create_parser_thread(
                                 let buf_reader = LowMarkBufReader::new(
                                     fi,
                                     BUFREADER_CAPACITY,
-                                    DLT_MAX_STORAGE_MSG_SIZE,
+                                    // a full message plus the 4 bytes the parser's "next storage header"
+                                    // plausibility check looks at (independent of read chunking)
+                                    DLT_MAX_STORAGE_MSG_SIZE + 4,
                                 );
                                 get_dlt_message_iterator(
                                     file_ext,
